@@ -25,7 +25,7 @@ META = {
             "force_number_suffix; thorough: x 2 alternative exponent/multiply strings) x a catalogue of ~75 operations "
             "(construction from every input kind, + - * **, negation, derivative / gradient / hessian, evaluation full / partial "
             "/ polynomial-valued, indexing, the four alignment functions, pickle, copy, joins, reductions, where, decompose, "
-            "set_dimensions, lead_*, comparisons, str; division under the default retain options only) x 6 inputs with cancelling "
+            "set_dimensions, lead_*, comparisons, str; division under the default retain options only) x 9 inputs (9 operand pairs) with cancelling "
             "terms and names that become unused (three names incl. q10). Oracle: the value under the shipped defaults is checked "
             "against the exact model; under every other configuration the operation must not fail and must return the same "
             "value, shape and dtype (ordering-based results may depend on the two sort options only, str on the display options "
@@ -44,6 +44,10 @@ def inputs():
     out.append(("d0", spec(("q0",), (), [((0,), 4)])))                                     # constant
     out.append(("e2", C09.tagged((2, 2), 0, ("q2", "q10"))))
     out.append(("f1", spec(("q0", "q2", "q10"), (3,), [((1, 0, 0), [1.5, 0, 0]), ((0, 0, 2), [0, -0.5, 0]), ((0, 1, 0), [0, 0, 2.0])], "f8")))
+    # names that are not in numeric order (only direct construction gives these), narrow / bool dtypes with a zero element
+    out.append(("g0", spec(("q10", "q2"), (), [((1, 2), 1), ((0, 1), 3)])))                  # q10*q2**2 + 3*q2
+    out.append(("h1", spec(("q0", "q1"), (3,), [((1, 0), [1, 0, 0]), ((0, 2), [1, 0, 2])], "i1")))   # [q0+q1**2, 0, 2*q1**2] int8, no constant term
+    out.append(("i1", spec(("q1", "q0"), (3,), [((1, 0), [True, False, False]), ((1, 1), [False, False, True])], "?")))
     return out
 
 
@@ -81,6 +85,12 @@ def catalogue():
     add("call staged", lambda x, y: numpoly.polynomial(numpoly.polynomial(x(1))(**{n: 2 for n in x.names[1:]}) if len(x.names) > 1 else x(1)))
     add("getitem", lambda x, y: x[..., -1] if x.ndim else x[()]), add("getitem mask", lambda x, y: x[x != 0] if x.ndim == 1 else x[..., :1] if x.ndim else x)
     add("iter", lambda x, y: numpoly.polynomial(list(x)) if x.ndim else x)
+    add("getitem each", lambda x, y: [x[i] for i in range(len(x))] if x.ndim else [x[()]])
+    add("iter each", lambda x, y: list(x) if x.ndim else [x])
+    add("x + x[1]*0", lambda x, y: x + x[1] * 0 if x.ndim == 1 and len(x) > 1 else x + x * 0)
+    add("derivative last,first", lambda x, y: numpoly.derivative(x, x.names[-1], x.names[0]))
+    add("derivative first,last", lambda x, y: numpoly.derivative(x, x.names[0], x.names[-1]))
+    add("derivative idx 0,1", lambda x, y: numpoly.derivative(x, 0, min(1, len(x.names) - 1)))
     for fn in ("align_polynomials", "align_shape", "align_indeterminants", "align_exponents"):
         add(fn + "[0]", lambda x, y, fn=fn: getattr(numpoly, fn)(x, y)[0])
         add(fn + "[1]", lambda x, y, fn=fn: getattr(numpoly, fn)(x, y)[1])
@@ -143,7 +153,7 @@ def configs(tier):
     return out
 
 
-PAIRS = [(0, 1), (2, 3), (4, 4), (5, 0), (1, 2), (3, 5), (0, 0)]
+PAIRS = [(0, 1), (2, 3), (4, 4), (5, 0), (1, 2), (3, 5), (6, 6), (7, 7), (8, 8)]
 
 
 def cases(tier, seed):
@@ -162,43 +172,41 @@ def run_case(case, R):
     cfgs = configs(case["tier"])
     defaults = {k: tree.DEFAULTS[k] for k in BOOL_OPTS}
     R.state(("ops", lx, ly, case["c0"]))
+    # reference: the shipped defaults
+    x, y = build_checked(spx), build_checked(spy)
+    refs = {}
     for label, kind, g, retain_default_only in cat:
-        # reference: shipped defaults
-        x, y = build_checked(spx), build_checked(spy)
         try:
-            ref = canon(g(x, y))
-            ref_err = None
-        except Exception as err:  # noqa: BLE001
-            ref, ref_err = None, err
-        if ref_err is not None:
-            R.stat("not_applicable_to_input")     # the operation does not apply to this input under defaults either (e.g. shapes)
-            continue
-        groups = {}
-        for cfg in cfgs:
-            if retain_default_only and (cfg["retain_names"] != defaults["retain_names"] or cfg["retain_coefficients"] != defaults["retain_coefficients"]):
-                continue
-            R.tr()
-            tags = [f"{k}={cfg[k]}" for k in BOOL_OPTS if cfg[k] != defaults[k]] or ["defaults"]
-            tags.append("kind=" + kind)
-            with numpoly.global_options(**cfg):
-                x, y = build_checked(spx), build_checked(spy)
+            refs[label] = canon(g(x, y))
+        except Exception:  # noqa: BLE001
+            R.stat("not_applicable_to_input")     # the operation does not apply to this input under defaults either
+    groups = {label: {} for label in refs}
+    for cfg in cfgs:
+        tags0 = [f"{k}={cfg[k]}" for k in BOOL_OPTS if cfg[k] != defaults[k]] or ["defaults"]
+        with numpoly.global_options(**cfg):
+            x, y = build_checked(spx), build_checked(spy)
+            for label, kind, g, retain_default_only in cat:
+                if label not in refs:
+                    continue
+                if retain_default_only and (cfg["retain_names"] != defaults["retain_names"] or cfg["retain_coefficients"] != defaults["retain_coefficients"]):
+                    continue
+                R.tr()
+                tags = tags0 + ["kind=" + kind]
+                sub = {"k": "one", "x": case["x"], "y": case["y"], "label": label, "cfg": cfg}
                 try:
                     got = canon(g(x, y))
                 except Exception as err:  # noqa: BLE001
-                    R.fail(label, "exception", f"{label} on ({lx},{ly}) fails under {short(cfg, defaults)}: {type(err).__name__}: {str(err)[:160]}",
-                           tags=tags, sub={"k": "one", "x": case["x"], "y": case["y"], "label": label, "cfg": cfg})
+                    R.fail(label, "exception", f"{label} on ({lx},{ly}) fails under {short(cfg, defaults)}: {type(err).__name__}: {str(err)[:160]}", tags=tags, sub=sub)
                     continue
-            if kind == "value":
-                want = ref
-            else:
-                keys = SORT if kind == "ordering" else DISP + tuple(k for k in cfg if k in ("display_exponent", "display_multiply"))
-                gk = tuple(cfg.get(k) for k in keys)
-                want = groups.setdefault(gk, got)
-            if got != want:
-                R.fail(label, "option-dependent", f"{label} on ({lx},{ly}) under {short(cfg, defaults)}: {str(got)[:200]} != {str(want)[:200]}",
-                       tags=tags, sub={"k": "one", "x": case["x"], "y": case["y"], "label": label, "cfg": cfg})
-            else:
-                R.outcome((label, lx, ly, tuple(sorted(cfg.items()))))
+                if kind == "value":
+                    want = refs[label]
+                else:
+                    keys = SORT if kind == "ordering" else DISP + tuple(k for k in cfg if k in ("display_exponent", "display_multiply"))
+                    want = groups[label].setdefault(tuple(cfg.get(k) for k in keys), got)
+                if got != want:
+                    R.fail(label, "option-dependent", f"{label} on ({lx},{ly}) under {short(cfg, defaults)}: {str(got)[:200]} != {str(want)[:200]}", tags=tags, sub=sub)
+                else:
+                    R.outcome((label, lx, ly, tuple(sorted(cfg.items()))))
     R.sample({"inputs": [lx, ly], "operations": [c[0] for c in cat], "configurations": len(cfgs)})
 
 
